@@ -57,6 +57,7 @@ def run(tier: str, seed: int, rep: Report, model: Model) -> dict:
                 "arrays produced another way (Fortran / strided / transposed / broadcast / read-only / non-zero / MaskedArray / ndarray subclass; torch "
                 "non-contiguous / expanded / requires_grad / Parameter / meta device; jax tracers); "
                 "distinct = distinct base context; non-trivial = the three assignments really differ")
+    rep.rule += '; each context also once with arrays produced another way (Fortran / strided / transposed / broadcast / read-only / non-zero / MaskedArray / ndarray subclass; torch non-contiguous / expanded / requires_grad / Parameter / meta; jax tracers)'
     bases = []
     while len(bases) < n:
         c = GC.gen_case(rnd)
